@@ -94,6 +94,9 @@ def run(ctx):
         calls = set()
         for x in P.subterms(t, data_only=True):
             if x[0] in ("call", "inl"):
+                # a cleaning rewrite of the url (escapes of single characters decoded, characters deleted: never longer than the url) is no transformer of the result
+                if x[1] not in allowed_calls and _not_longer_than_url(ctx, x):
+                    continue
                 calls.add(x[1])
         bad = sorted(c for c in calls if c not in allowed_calls and not c.startswith("ural.infer_redirection.") and c != "ural.patterns.CONTROL_CHARS_RE.sub")
         ctx.ob("R2", "return@%d/transformers" % r.node.lineno if False else "return/%s/transformers" % P.show(t, maxdepth=1)[:40], not bad,
@@ -159,6 +162,7 @@ def run(ctx):
 def _not_longer_than_url(ctx, t):
     """t is the url parameter, or PATTERN.sub(callback, <such a term>) where every match of PATTERN is a %HH escape
     (regex-language inclusion) and the callback never returns more characters than it was given (all 484 escapes)."""
+    t = P.strip_inl(t)  # a helper that only wraps such a substitution
     if t == ("param", "url"):
         return True
     op = F.regex_op(t)
